@@ -5,11 +5,13 @@
    supplied (list / dict; module-level def, nested def, lambda, callable object) and the runner class are NOT inputs of
    the specification -- uniformity over them is what the harness checks for every state. *)
 EXTENDS CelEval, TLC
+CONSTANT TIER
 VARIABLES prog, ovr, exp, calls
 vars == <<prog, ovr, exp, calls>>
 I(n) == IntV(FromInt(n))
 S(s) == Str(s)
-Args == { Lit(I(1)), Lit(S(<<115>>)), Lit(List(<<I(2), I(3)>>)) }   \* (TLC cannot order two records whose v fields are equally long sequences of different kinds)
+Args == { Lit(I(1)), Lit(S(<<115>>)), Lit(List(<<I(2), I(3)>>)) }
+        \cup (IF TIER = "thorough" THEN { Lit(Null), Lit(UintV(FromInt(2))), Lit(Dur(MegaB)), Lit(Map(<< <<S(<<107>>), I(1)>>, <<S(<<108>>), I(2)>>, <<S(<<109>>), I(3)>> >>)), Lit(Bytes(<<255>>)), Lit(I(-7)) } ELSE {})   \* (TLC cannot order two records whose v fields are equally long sequences of different kinds)
 A1 == Lit(I(1))  A2 == Lit(S(<<115>>))
 X == Var("x")
 ErrArg == Bin("/", A1, Lit(I(0)))
@@ -44,12 +46,18 @@ Roots ==
          Macro("map", Lit(List(<<>>)), "x", Echo(<<X>>)) }
   \cup { Macro("exists", Lit(List(<<I(1), I(2)>>)), "x", Bin("||", f, Bin("==", X, Lit(I(2))))) : f \in Fail }
   \cup { Macro("all", Lit(List(<<I(1), I(2)>>)), "x", Bin("&&", f, Bin("==", X, Lit(I(2))))) : f \in Fail }
+Deeper == IF TIER # "thorough" THEN {} ELSE
+       { Bin(o, Bin(o2, f, c), c2) : o \in {"||", "&&"}, o2 \in {"||", "&&"}, f \in Fail, c \in {T, F}, c2 \in {T, F} }
+  \cup { CondE(c, Bin("||", f, T), Bin("&&", f, F)) : c \in {T, F}, f \in Fail }
+  \cup { Echo(<<Echo(<<Echo(<<a>>), b>>), MCall(a, "hecho", <<b>>)>>) : a \in Args, b \in Args }
+  \cup { Macro(m, Lit(List(<<I(1), I(2), I(3)>>)), "x", Bin("||", Bin("==", Idx(Echo(<<X, a>>), Lit(I(0))), Lit(I(2))), f)) : m \in {"exists", "all", "exists_one", "filter"}, a \in Args, f \in Fail }
+  \cup { Macro("map", Lit(List(<<I(1), I(2)>>)), "x", Macro("map", Lit(List(<<I(10)>>)), "y", Echo(<<X, Var("y"), a>>))) : a \in Args }
 SizeRoots == { Call("size", <<Lit(List(<<I(1), I(2)>>))>>), MCall(Lit(List(<<I(1), I(2)>>)), "size", <<>>), Call("size", <<Lit(S(<<97, 98, 99>>))>>),
                Bin("+", Call("size", <<Lit(List(<<I(1), I(2)>>))>>), Lit(I(1))) }
 Env(o) == IF o THEN << <<"__override_size", Bool(TRUE)>> >> ELSE <<>>
 Init == prog = Lit(Null) /\ ovr = FALSE /\ exp = Null /\ calls = <<>>
 Next == /\ prog = Lit(Null)
-        /\ \/ (\E p \in Roots : prog' = p /\ ovr' = FALSE)
+        /\ \/ (\E p \in Roots \cup Deeper : prog' = p /\ ovr' = FALSE)
            \/ (\E p \in SizeRoots, o \in BOOLEAN : prog' = p /\ ovr' = o)
         /\ exp' = Eval(prog', Env(ovr')) /\ calls' = Calls(prog', Env(ovr'))
 Spec == Init /\ [][Next]_vars
